@@ -167,56 +167,93 @@ theorem renameL_eq {W : World} {oS oD nv : Nat}
     simp only [List.all_cons, Bool.and_eq_true, decide_eq_true_eq] at h
     exact .cons (rename_eq hv t h.1) (renameL_eq hv ts h.2)
 
-theorem rename_goalRel {W : World} {oS oD nv : Nat}
-    (hv : ∀ v, v < nv → W.Eq (.var (v + oS)) (.var (v + oD))) (g : Term) :
-    goalOK g = true → boundT g ≤ nv → GoalRel W.Eq (renameT oS g) (renameT oD g) := by
-  fun_induction goalOK g with
-  | case1 a => intro _ _; exact .atom a
-  | case2 a b iha ihb =>
-    intro ok hb
-    simp only [Bool.and_eq_true] at ok
-    simp only [boundT, boundA] at hb
-    exact .conj (iha ok.1 (by omega)) (ihb ok.2 (by omega))
-  | case3 f a b hf =>
-    intro _ hb
-    simp only [boundT, boundA] at hb
-    exact .bin hf (rename_eq hv a (by omega)) (rename_eq hv b (by omega))
-  | case4 => intro h; simp at h
+theorem evalBlock_arity3 (uf : Nat) (f : String) (a b c : Term) (ds : Args) (st : St) :
+    ∃ e, evalBlock uf (.app f (.cons a (.cons b (.cons c ds)))) st = .error e := by
+  unfold evalBlock
+  split <;> simp_all
 
-theorem rename_bodyRel (strict : Bool) {W : World} {oS oD nv : Nat}
+theorem evalBlock_arity1 (uf : Nat) (f : String) (a : Term) (st : St) :
+    ∃ e, evalBlock uf (.app f (.cons a .nil)) st = .error e := by
+  unfold evalBlock
+  split <;> simp_all
+
+theorem evalBlock_arity0 (uf : Nat) (f : String) (st : St) :
+    ∃ e, evalBlock uf (.app f .nil) st = .error e := by
+  unfold evalBlock
+  split <;> simp_all
+
+/-- a renamed `{}`-goal on the two sides: the same control structure, related arguments; a goal of
+    another shape is one the denotation does not cover, renamed or not -/
+theorem rename_goalRel {W : World} {oS oD nv : Nat}
+    (hv : ∀ v, v < nv → W.Eq (.var (v + oS)) (.var (v + oD))) :
+    ∀ g : Term, boundT g ≤ nv → GoalRel W.Eq (renameT oS g) (renameT oD g)
+  | .app f (.cons a (.cons b .nil)), hb => by
+    simp only [boundT, boundA] at hb
+    simp only [renameT, renameA]
+    by_cases hf : f = ","
+    · subst hf
+      exact .conj (rename_goalRel hv a (by omega)) (rename_goalRel hv b (by omega))
+    · exact .bin hf (rename_eq hv a (by omega)) (rename_eq hv b (by omega))
+  | .atom a, _ => .atom a
+  | .app _ .nil, _ => by
+    simp only [renameT, renameA]
+    exact .other rfl (fun uf st => evalBlock_arity0 uf _ st)
+  | .app _ (.cons _ .nil), _ => by
+    simp only [renameT, renameA]
+    exact .other rfl (fun uf st => evalBlock_arity1 uf _ _ st)
+  | .app _ (.cons _ (.cons _ (.cons _ _))), _ => by
+    simp only [renameT, renameA]
+    exact .other rfl (fun uf st => evalBlock_arity3 uf _ _ _ _ _ st)
+  | .var _, _ => .other rfl (fun _ _ => ⟨_, rfl⟩)
+  | .int _, _ => .other rfl (fun _ _ => ⟨_, rfl⟩)
+  | .flt _, _ => .other rfl (fun _ _ => ⟨_, rfl⟩)
+  | .str _, _ => .other rfl (fun _ _ => ⟨_, rfl⟩)
+
+theorem rename_bodyRel {W : World} {oS oD nv : Nat}
     (hv : ∀ v, v < nv → W.Eq (.var (v + oS)) (.var (v + oD))) (b : Body) :
-    b.ok strict = true → b.varsBelow nv = true → BodyRel W.Eq (b.rename oS) (b.rename oD) := by
+    b.varsBelow nv = true → BodyRel W.Eq (b.rename oS) (b.rename oD) := by
   induction b with
-  | eps => intro _ _; exact .eps
-  | terminals ts => intro _ h; exact .terminals (renameL_eq hv ts h)
-  | nt f as => intro _ h; exact .nt (renameL_eq hv as h)
+  | eps => intro _; exact .eps
+  | terminals ts => intro h; exact .terminals (renameL_eq hv ts h)
+  | nt f as => intro h; exact .nt (renameL_eq hv as h)
   | seq a b iha ihb =>
-    intro ok h
-    simp only [Body.ok, Body.varsBelow, Body.allT, Bool.and_eq_true] at ok h
-    exact .seq (iha ok.1 h.1) (ihb ok.2 h.2)
+    intro h
+    simp only [Body.varsBelow, Body.allT, Bool.and_eq_true] at h
+    exact .seq (iha h.1) (ihb h.2)
   | alt a b iha ihb =>
-    intro ok h
-    simp only [Body.ok, Body.varsBelow, Body.allT, Bool.and_eq_true] at ok h
-    exact .alt (iha ok.1.1 h.1) (ihb ok.1.2 h.2)
+    intro h
+    simp only [Body.varsBelow, Body.allT, Bool.and_eq_true] at h
+    exact .alt (iha h.1) (ihb h.2)
   | ite c t e ihc iht ihe =>
-    intro ok h
-    simp only [Body.ok, Body.varsBelow, Body.allT, Bool.and_eq_true] at ok h
-    exact .ite (ihc ok.1.1 h.1.1) (iht ok.1.2 h.1.2) (ihe ok.2 h.2)
+    intro h
+    simp only [Body.varsBelow, Body.allT, Bool.and_eq_true] at h
+    exact .ite (ihc h.1.1) (iht h.1.2) (ihe h.2)
   | ifthen c t ihc iht =>
-    intro ok h
-    simp only [Body.ok, Body.varsBelow, Body.allT, Bool.and_eq_true] at ok h
-    exact .ifthen (ihc ok.1 h.1) (iht ok.2 h.2)
+    intro h
+    simp only [Body.varsBelow, Body.allT, Bool.and_eq_true] at h
+    exact .ifthen (ihc h.1) (iht h.2)
   | block g =>
-    intro ok h
-    simp only [Body.ok] at ok
+    intro h
     simp only [Body.varsBelow, Body.allT, decide_eq_true_eq] at h
-    exact .block (rename_goalRel hv g ok h)
+    exact .block (rename_goalRel hv g h)
   | not b ih =>
-    intro ok h
-    simp only [Body.ok, Body.varsBelow, Body.allT] at ok h
-    exact .not (ih ok h)
-  | cut => intro _ _; exact .cut
-  | _ => intro ok; simp [Body.ok] at ok
+    intro h
+    simp only [Body.varsBelow, Body.allT] at h
+    exact .not (ih h)
+  | cut => intro _; exact .cut
+  | call1 g =>
+    intro h
+    simp only [Body.varsBelow, Body.allT, decide_eq_true_eq] at h
+    exact .call1 (rename_eq hv g h)
+  | phrase g =>
+    intro h
+    simp only [Body.varsBelow, Body.allT, decide_eq_true_eq] at h
+    exact .phrase (rename_eq hv g h)
+  | var w =>
+    intro h
+    simp only [Body.varsBelow, Body.allT, boundT] at h
+    have := of_decide_eq_true h
+    exact .var (hv w (by omega))
 
 /-! ### the clause of a rule -/
 
